@@ -70,6 +70,15 @@ type Config struct {
 	// TtyAlt[i] = true: before call i the harness changes the tty settings as "stty -ixon erase ^H"
 	// would (the application's own settings changed between two calls); the call must leave exactly those.
 	TtyAlt []bool `json:",omitempty"`
+	// BadCPR = n > 0: the n-th cursor-position query of the job is answered with a report whose row
+	// does not fit an int (a terminal that answers nonsense once); every other query is answered normally.
+	BadCPR int `json:",omitempty"`
+	// PreOutput is written to the terminal before the first call (earlier output of the application:
+	// the prompt then does not start on the top row of the screen).
+	PreOutput string `json:",omitempty"`
+	// PriorCalls are complete Readline calls made on the same Shell before Job.Calls; nothing of
+	// them is recorded (the state they leave behind is the start state of the job).
+	PriorCalls [][]Answer `json:",omitempty"`
 }
 
 // Answer is the environment's answer to one wait on the key input.
